@@ -97,6 +97,14 @@ CHECKS.update({
             "DESIGN.md section 5 C16"),
 })
 
+CHECKS.update({
+    "C07": ("translation_validation",
+            "real rewriting passes on lowered PG phases; before/after trees executed by a reference tree executor in one symx path from a fully symbolic pre-state; z3 validity per original variable, event and external call; reads of unset introduced variables are violations",
+            "Per phase and pass (four passes alone + the Fortran pipeline order read from the generator's current source): z3 proves for all integer pre-states and function interpretations that every original variable, every event, the outcome and the multiset of external calls are unchanged, and that no introduced variable is read before it is set; statement ids stay unique. One pipeline-level defect (calls hoisted out of conditional-expression branches) is a listed known finding.",
+            "Trusted: z3, symx, RefAst (vf/refast.py). Loop bounds 0..2, arrays length 3, <=60 paths per (phase, pass) in quick.",
+            "DESIGN.md section 5 C07"),
+})
+
 NOT_APPLICABLE = {
 }
 
